@@ -85,6 +85,7 @@ type Solver struct {
 	timeoutS int
 	thorough bool
 	useCache bool
+	retries  int  // goals retried so far in this run (bounded: a tree with many failing goals is a broken tree, not solver noise)
 	retry    bool // second round with other seeds for undecided goals (property checks; not for obligations listed as known findings)
 	cacheDir string
 	mu       sync.Mutex
@@ -213,7 +214,16 @@ func (s *Solver) solve(name, query string, cover bool) SolveResult {
 	// Second round for an undecided proof goal: solver heuristics are sensitive to the order of declarations, so an
 	// obligation that usually takes a few seconds occasionally runs out of time. Before it is reported, it is retried with
 	// twice the budget under three other random seeds; only a goal undecided in both rounds counts as failed.
+	allowRetry := false
 	if !s.thorough && s.retry && (best.Status == "timeout" || best.Status == "unknown") {
+		s.mu.Lock()
+		if s.retries < 8 {
+			s.retries++
+			allowRetry = true
+		}
+		s.mu.Unlock()
+	}
+	if allowRetry {
 		ctx2, cancel2 := context.WithCancel(context.Background())
 		defer cancel2()
 		ch2 := make(chan SolveResult, 3)
